@@ -2,7 +2,7 @@
    ONLY statements: each theorem is closed by `exact` of a lemma proved elsewhere and followed by Print Assumptions. *)
 From Coq Require Import ZArith NArith List Bool Lia Permutation FMapPositive.
 Import ListNotations.
-Require Import Base Strings Num Builtins Interp Machine Spec Refine2 Pure HeapFacts Refine1 RunG IOSpec.
+Require Import Base Strings Num Builtins Interp Machine Spec Refine2 Pure HeapFacts Refine1 RunG IOSpec Eq Deep MonadLaws.
 Open Scope Z_scope.
 (* evaluating any expression (applying any callable, deep-forcing, computing keys) returns the world it was given: no input consumed, no output written *)
 Theorem evaluation_is_pure n ip h w t h' w' r d :
@@ -58,4 +58,54 @@ Theorem bind_handler n ip h w sp m f rej argv h1 w1 e d1 :
           if is_io r' then exec n ip h3 w3 r' else Done h3 w3 (inr (mkerr c_type sp)) 0))) d1.
 Proof. exact (IOSpec.bind_handler n ip h w sp m f rej argv h1 w1 e d1). Qed.
 Print Assumptions bind_handler.
+
+(* a bind without handler IS sequencing: the bound action, then (apply the continuation, require an action, execute it) *)
+Theorem bind_is_then n ip h w sp m f argv :
+  exec (S n) ip h w (VIO (IOBind sp m f None argv)) = then_ (exec n ip h w m) (kleisli n ip f sp).
+Proof. exact (MonadLaws.bind_is_then n ip h w sp m f argv). Qed.
+Print Assumptions bind_is_then.
+
+(* return a >>= f  =  f a   (a: a value an action can yield - not delayed, not itself an action) *)
+Theorem left_identity n ip h w sp a f argv :
+  isthunk a = false -> is_io a = false ->
+  exec (S (S (S n))) ip h w (VIO (IOBind sp (VIO (IOReturn a)) f None argv)) = kleisli (S (S n)) ip f sp h w a.
+Proof. exact (MonadLaws.left_identity n ip h w sp a f argv). Qed.
+Print Assumptions left_identity.
+
+(* the boundary of left identity: the executor keeps going while the value is an action, so a RETURNED action is executed too (known finding F25) *)
+Theorem return_of_action_runs_it n ip h w i :
+  exec (S (S n)) ip h w (VIO (IOReturn (VIO i))) = exec (S n) ip h w (VIO i).
+Proof. exact (MonadLaws.return_of_action_runs_it n ip h w i). Qed.
+Print Assumptions return_of_action_runs_it.
+
+(* no action ever yields an action *)
+Theorem exec_result_not_io  :
+  forall n ip h w v h' w' x d, exec n ip h w v = Done h' w' (inl x) d -> is_io x = false.
+Proof. exact (MonadLaws.exec_result_not_io ). Qed.
+Print Assumptions exec_result_not_io.
+
+(* m >>= return  =  m : same result, world AND heap (x fully evaluated, as everything ㄱㅅ builds is - return_yields_deep) *)
+Theorem right_identity n ip h w sp m argv h1 w1 x d1 :
+  exec n ip h w m = Done h1 w1 (inl x) d1 -> dstrict x -> (vdepth x + 2 <= n)%nat ->
+  exec (S n) ip h w (VIO (IOBind sp m (EBuiltin b_return) None argv)) = Done h1 w1 (inl x) d1.
+Proof. exact (MonadLaws.right_identity n ip h w sp m argv h1 w1 x d1). Qed.
+Print Assumptions right_identity.
+
+Theorem right_identity_failure n ip h w sp m argv h1 w1 e d1 :
+  exec n ip h w m = Done h1 w1 (inr e) d1 ->
+  exec (S n) ip h w (VIO (IOBind sp m (EBuiltin b_return) None argv)) = Done h1 w1 (inr e) d1.
+Proof. exact (MonadLaws.right_identity_failure n ip h w sp m argv h1 w1 e d1). Qed.
+Print Assumptions right_identity_failure.
+
+Theorem return_yields_deep n sp a ip h w h' w' v d :
+  bs (S n) ip h w (TComp (apply_body (EBuiltin b_return) sp [a])) = Done h' w' (inl v) d -> inv h ip ->
+  exists x, v = VIO (IOReturn x) /\ dstrict x.
+Proof. exact (MonadLaws.return_yields_deep n sp a ip h w h' w' v d). Qed.
+Print Assumptions return_yields_deep.
+
+(* (m >>= f) >>= g  =  m, then f's action, then g's action: sequencing is associative (then_assoc) *)
+Theorem assoc_left n ip h w sp m f g argv argv' :
+  exec (S (S n)) ip h w (VIO (IOBind sp (VIO (IOBind sp m f None argv)) g None argv')) = pipeline3 n ip sp h w m f g.
+Proof. exact (MonadLaws.assoc_left n ip h w sp m f g argv argv'). Qed.
+Print Assumptions assoc_left.
 
